@@ -1,0 +1,13 @@
+//go:build verif
+
+package stream
+
+// Contracts for property C45, stage state is per materialisation: a Flow is a
+// reusable description whose actor factory runs once per materialisation, so a
+// stateful stage (Deduplicate's last element, Scan's accumulator, ...) must create
+// its state inside the factory. None of the builders allocates a variable in its
+// own body that a closure nested in it writes.
+
+//@ property C45
+
+//@ structural perrun-state flow-builders: Map, TryMap, Filter, FlatMap, Flatten, Batch, Buffer, Throttle, Deduplicate, Scan, WithContext, ParallelMap, OrderedParallelMap, FlatMapConcat, FlatMapMerge, makeFlatMapStreamFlow, makeMapFlow
